@@ -958,6 +958,11 @@ def splice(toks, name, spec, counts):
     for (fname, n), (body, p) in spec.loop.items():
         if fname != name:
             continue
+        if len(lps) == 0:
+            # the function no longer has any loop: a loop contract has nothing to attach to and nothing
+            # to establish; the function's own postconditions are still checked (no ordinal can shift)
+            _count(counts, "loop-contract-dropped")
+            continue
         if n < 1 or n > len(lps):
             raise LostAnchor("%s: loop #%d requested, function has %d loops" % (name, n, len(lps)))
         inserts.append((lps[n - 1][1], body, "loop%d" % n))
